@@ -16,7 +16,7 @@
 import binascii
 
 from yabgp.message.attribute.linkstate.linkstate import LinkState
-from yabgp.common.tlv import TLV
+from yabgp.tlv import TLV
 
 import netaddr
 
@@ -28,7 +28,7 @@ class OspfForwardingAddr(TLV):
     TYPE_STR = "ospf_forwarding_address"
 
     @classmethod
-    def parse(cls, value):
+    def unpack(cls, value):
         """
         """
-        return cls(value=str(netaddr.IPAddress(int(binascii.b2a_hex(value), 16))))
+        return cls(value=str(netaddr.IPAddress(int(binascii.b2a_hex(value), 16), 6 if len(value) == 16 else 4)))
